@@ -1,7 +1,7 @@
 """Contracts for the command-stream emitter (property C06: register elision is correct for every history, fields fit
 their registers) in register_command_stream_generator.py."""
 from ethosu.vela import register_command_stream_generator as rg
-from ethosu.vela.ethos_u55_regs.ethos_u55_regs import cmd0, cmd1
+from ethosu.vela.ethos_u55_regs.ethos_u55_regs import cmd0, cmd1, resampling_mode
 from ethosu.vela.register_command_stream_generator import CmdMode, CommandStreamEmitter, RegisterMachine
 
 from pyvc.contracts import REGISTRY, contract, implies  # noqa: F401
@@ -96,7 +96,8 @@ def pval(param):
 contract(
     "ethosu.vela.register_command_stream_generator:CommandStreamEmitter.cmd0_with_param", props=["C06"],
     variants={"int": dict(self=EMIT, cmd=TEnum(cmd0), param=PyInt),
-              "enum": dict(self=EMIT, cmd=TEnum(cmd0), param=TEnum(reg_activation))},
+              "enum": dict(self=EMIT, cmd=TEnum(cmd0), param=TEnum(reg_activation)),
+              "enum_resampling": dict(self=EMIT, cmd=TEnum(cmd0), param=TEnum(resampling_mode))},
     # no truncation: the value is representable in the 16-bit field (unsigned, or two's complement for signed fields)
     requires=["emit_inv(self)", "-(2**15) <= pval(param) < 2**16"],
     ghost={"after:self.cmd_stream.append((command,))": ["self.decoded[cmd] = (param, 0)"]}, **GHOST, **REVEAL,
